@@ -105,6 +105,8 @@ def cases(tier, seed):
                     if lay == 'dup_rows' and name not in DUP_LEARNERS:
                         continue        # k-NN triplets with exact distance ties are C07's ambiguity domain
                     out.append(('%s/%s/p%d/%s' % (name, dsn, i, lay), (name, dsn, i, lay, seed)))
+    # witness of known finding K3 (fixed input, independent of the run's seed): rotating dataset no. 1, first label unknown
+    out.append(('SCML_Supervised/R(1)/p1/first', ('SCML_Supervised', 'R', 1, 'first', 1)))
     return out
 
 
@@ -219,7 +221,12 @@ def run_case(spec):
                     else:
                         sup.fit(X, y)
         except Exception as e:
-            viol.append(V(name + '.fit', 'fit_raises', 'fit raised %s: %s [seed %d]' % (type(e).__name__, str(e)[:150], seed), trig))
+            trig_e = list(trig)
+            if name == 'SCML_Supervised' and is_lda and (y < 0).any() and isinstance(e, ValueError) and 'could not broadcast' in str(e):
+                # the 'lda' basis generator counts the unlabeled marker as a class; a local LDA that then yields fewer directions
+                # than min(n_classes - 1, n_features) does not fit its slot of the basis array (known finding K3)
+                trig_e.append('lda_basis_slot_mismatch_with_unlabeled_marker')
+            viol.append(V(name + '.fit', 'fit_raises', 'fit raised %s: %s [seed %d]' % (type(e).__name__, str(e)[:150], seed), trig_e))
             evals += 1
             continue
         evals += 1
